@@ -19,7 +19,7 @@ EXHAUSTIVE = True
 RULE = (
     "tables: dims 1..3 x every axis x both directions x both spellings (letter, int); layout helpers: every array shape with extents "
     "1..3 (thorough 1..4) x payload {none, trailing 2} with provenance-coded data; Image.slice / reduce_axis: every 2-D and 3-D image shape "
-    "with extents 1..3 x origin {default, user} x every axis (int and Cartesian name) x every cut position x modes {average, sum}; coordinate systems of 1-D/2-D/3-D images created in every order (all "
+    "with extents 1..3 x origin {default, user, user spelled with ints} x every axis (int and Cartesian name) x every cut position x modes {average, sum}; coordinate systems of 1-D/2-D/3-D images created in every order (all "
     "permutations of 2 and 3 dimensions) and kept. "
     "Non-trivial = every case (each compares two independent sources); distinct = distinct case descriptor."
 )
@@ -48,7 +48,7 @@ def cases(tier):
                 out.append({"kind": "layout", "dim": dim, "shape": list(s), "payload": payload})
     for dim in (2, 3):
         for s in itertools.product(range(1, n + 1), repeat=dim):
-            for origin in ("default", "user"):
+            for origin in ("default", "user", "user-int"):
                 out.append({"kind": "image-axis", "dim": dim, "shape": list(s), "origin": origin})
     # coordinate systems of images of different dimension, created in every order and KEPT: each
     # keeps following the table of its own dimension whatever was created after it
@@ -72,6 +72,8 @@ def _img(shape, origin, payload=0):
     kw = dict(space_dim=dim, dimensions=[vs[a] * shape[a] for a in range(dim)], scalar=(payload == 0))
     if origin == "user":
         kw["origin"] = [3.0, -2.0, 5.0][:dim]
+    elif origin == "user-int":
+        kw["origin"] = [3, -2, 5][:dim]  # the same corner spelled with ints (integer-typed origin array)
     return darsia.Image(data, **kw), vs
 
 
